@@ -6,11 +6,14 @@ import os
 import shutil
 
 from . import gen_graph, gen_str, gen_dyn
-from .common import (EXIT_DEADLOCK, EXIT_INVARIANT, EXIT_STEP_BUDGET, Plan, STRATEGIES,
+from .common import (EXIT_DEADLOCK, EXIT_INVARIANT, EXIT_STEP_BUDGET, HarnessError, Plan, STRATEGIES,
+                     VERIF,
                      check_sim_health, rm_rf, rng_for, scratch_dir, sim_link)
 from .elf import Elf
 from .family_fs import SIMSYS, read_syslog
 from .family_graph import ALLOC_ERR
+
+TWIN_WILD = os.path.join(VERIF, "target-real", "debug", "wild")
 
 PRIOR_STATES = ["absent", "absent", "shorter", "longer", "random", "previous", "busy"]
 
@@ -284,6 +287,39 @@ def run_job(job):
                               f"offset {off:#x} in {sec} ({ndiff} bytes differ {where}); "
                               f"ref argv {ref_desc['argv'][-6:]} vs {desc['argv'][-6:]} prior={prior}",
                     "replay": d2})
+        # Model validation against the production twin (real rayon, real threads; built by
+        # checks/build_twin.sh): same class, a few real executions. Real outputs that differ among
+        # themselves are a C06 violation observed on real schedules; real outputs that agree with each
+        # other but not with the simulated reference mean the simulator misrepresents wild (exit 2).
+        if job.get("twin") and ref_hash is not None and os.path.exists(TWIN_WILD):
+            twin_hashes = []
+            for t, threads in enumerate((4, 1, 8)):
+                tout = os.path.join(workdir, f"twin{t}.out")
+                targv = ["-o", tout] + class_args + [f"--threads={threads}", "--no-fork"]
+                r = sim_link(targv, workdir, Plan(1, "rr"), tag=f"twin{t}", wild=TWIN_WILD, pin=False)
+                res["runs"] += 1
+                c["twin_runs"] = c.get("twin_runs", 0) + 1
+                if r.status != 0:
+                    raise HarnessError(f"det job {index}: twin link failed ({r.status}) where the "
+                                       f"simulated link succeeded: {r.err_text()[-300:]}")
+                twin_hashes.append(hashlib.sha256(open(tout, "rb").read()).hexdigest())
+            if len(set(twin_hashes)) > 1:
+                sec, off, ndiff, where = first_diff_section(
+                    os.path.join(workdir, "twin0.out"),
+                    os.path.join(workdir, f"twin{[h != twin_hashes[0] for h in twin_hashes].index(True)}.out"))
+                res["violations"].append({
+                    "prop": "C06", "clause": "bytes-differ-real-threads",
+                    "signature": f"det/twin-bytes-differ/{ctype}/{sec}",
+                    "detail": f"production build (real rayon) produced different outputs for thread "
+                              f"counts 4/1/8: first difference at {off:#x} in {sec} ({ndiff} bytes)",
+                    "replay": dict(ref_desc, twin=True)})
+            elif twin_hashes[0] != ref_hash:
+                sec, off, ndiff, where = first_diff_section(ref_path, os.path.join(workdir, "twin0.out"))
+                raise HarnessError(f"det job {index} ({ctype}): production twin output differs from the "
+                                   f"simulated output at {off:#x} in {sec} ({ndiff} bytes {where}): the "
+                                   f"rayon model or a seam misrepresents wild")
+            else:
+                c["twin_equal_classes"] = c.get("twin_equal_classes", 0) + 1
         failed = res.get("failed", [])
         if failed and ref_hash is not None:
             (v, status, err, desc) = failed[0]
